@@ -166,6 +166,12 @@ fn finish_k<K: Kmer + Send + Sync>(a: &[&str]) -> String {
 }
 
 /// `L-map/R-map`, each `key=value=slot-reported-by-get_key_id,...` in slot order (`-` if empty, `x` for a key not found)
+#[cfg(not(feature = "layout"))]
+fn layout<K: Kmer>(_g: &DebruijnGraph<K, u32>) -> String { "unavailable".to_string() }
+#[cfg(not(feature = "layout"))]
+fn layout_ok_big<K: Kmer>(_g: &DebruijnGraph<K, u32>) -> bool { true }
+
+#[cfg(feature = "layout")]
 fn layout<K: Kmer>(g: &DebruijnGraph<K, u32>) -> String {
     [debruijn::Dir::Left, debruijn::Dir::Right].iter().map(|d| {
         let v = g.verif_index_layout(*d);
@@ -177,6 +183,7 @@ fn layout<K: Kmer>(g: &DebruijnGraph<K, u32>) -> String {
 
 /// the two predicates of the C19b theorem evaluated in Rust on one map of a large graph: every slot's key is the terminal
 /// k-mer of the node its value names and is reported at that slot, and every node is named exactly once
+#[cfg(feature = "layout")]
 fn layout_ok_big<K: Kmer>(g: &DebruijnGraph<K, u32>) -> bool {
     let k = K::k();
     for d in [debruijn::Dir::Left, debruijn::Dir::Right] {
